@@ -265,7 +265,7 @@ func c13Body(k c13Case, s *bsched.Sched) any {
 	rec := &c13Recorder{}
 	h := c13Handler(k.Cfg.Kind, rec, k.Cfg.HandlerOptions()...)
 	c13Pre(k, h)
-	tr := &memhttp.Transport{Handler: h, Proto: 2, ReqMode: k.Cfg.ReqMode}
+	tr := &memhttp.Transport{Handler: h, Proto: 2, ReqMode: k.Cfg.ReqMode, MutateURL: true}
 	if s != nil {
 		tr.Gate = s.Gate
 	} else {
@@ -349,6 +349,11 @@ func c13Body(k c13Case, s *bsched.Sched) any {
 			if bytes.Contains(m, poisonSeq) {
 				obs.Poison = "client received a message containing bytes of a released buffer: " + shortBytes(m)
 			}
+		}
+	}
+	for i, ex := range tr.Exchanges {
+		if ex.URL != BaseURL+Procedure && obs.Wrong == "" {
+			obs.Wrong = fmt.Sprintf("request %d was sent to %q, the client was built for %q (another call's request state leaked into it)", i, ex.URL, BaseURL+Procedure)
 		}
 	}
 	obs.Retained = rec.check()
